@@ -552,6 +552,20 @@ class Interp:
                 if is_sym(v):
                     return simp(-v)
                 return (-v) & ((1 << bits) - 1)
+            if rv[1] == "PtrMetadata":
+                t = v
+                while isinstance(t, (Ref, Box)):
+                    t = t.get() if isinstance(t, Ref) else t.cell[0]
+                if isinstance(t, Slice):
+                    return len(t)
+                if isinstance(t, SVec):
+                    return len(t.items)
+                if isinstance(t, Agg) and t.kind == "array":
+                    return len(t.fields)
+                if isinstance(t, (Str, SString)):
+                    from .values import bytelen
+                    return bytelen(t.elems)
+                raise Unsupported("PtrMetadata of %s" % type(t).__name__)
             raise Unsupported("unop %s" % rv[1])
         if k == "discriminant":
             v = self.read(fr, rv[1])
